@@ -113,6 +113,8 @@ impl Lattice {
         self.eos = None;
         self.size = length + 1;
         self.connect_bos();
+        #[cfg(sudachi_verif)]
+        crate::verif::emit(|| serde_json::json!({"ev": "lat_reset", "n": length}));
     }
 
     fn connect_bos(&mut self) {
@@ -127,9 +129,13 @@ impl Lattice {
         let node = Node::new(eos_start, eos_end, 0, 0, 0, WordId::EOS);
         let (idx, cost) = self.connect_node(&node, conn);
         if cost == i32::MAX {
+            #[cfg(sudachi_verif)]
+            crate::verif::emit(|| serde_json::json!({"ev": "lat_eos", "res": "disconnect"}));
             Err(SudachiError::EosBosDisconnect)
         } else {
             self.eos = Some((idx, cost));
+            #[cfg(sudachi_verif)]
+            crate::verif::emit(|| serde_json::json!({"ev": "lat_eos", "res": "ok", "total": cost, "pe": idx.end(), "pi": idx.index()}));
             Ok(())
         }
     }
@@ -141,6 +147,10 @@ impl Lattice {
         let end_idx = node.end();
         self.ends[end_idx].push(VNode::new(node.right_id(), cost));
         self.indices[end_idx].push(idx);
+        #[cfg(sudachi_verif)]
+        crate::verif::emit(|| serde_json::json!({"ev": "lat_ins", "b": node.begin(), "e": node.end(), "lid": node.left_id(),
+            "rid": node.right_id(), "cost": node.cost(), "wid": node.word_id().as_raw(), "total": cost,
+            "pe": idx.end(), "pi": idx.index()}));
         self.ends_full[end_idx].push(node);
         cost
     }
